@@ -32,7 +32,11 @@ def main():
         _rt, _rtn, _rm = _time.time, _time.time_ns, _time.monotonic
         _time.time = lambda: _rt() + shift
         _time.time_ns = lambda: _rtn() + int(shift * 1e9)
-        _time.monotonic = lambda: _rm() + 98765.4
+        _time.monotonic = lambda: _rm() * 3600.0 + 98765.4  # ... and an hour passes per second
+        _rp, _rpn, _rmn = _time.perf_counter, _time.perf_counter_ns, _time.monotonic_ns
+        _time.perf_counter = lambda: _rp() * 3600.0
+        _time.perf_counter_ns = lambda: _rpn() * 3600
+        _time.monotonic_ns = lambda: _rmn() * 3600 + 98765400000000
 
         class _FakeDateTime(_dt.datetime):
             @classmethod
